@@ -278,7 +278,8 @@ class Run:
             "samples": jsonable(st.samples) or [{"note": "no sample recorded"}],
             "evaluations": max(1, qtot),
             "distinct_nontrivial": max(0, qun + sum(v for k, v in st.q.items() if k.endswith(":sat"))),
-            "rule": self.rule,
+            "rule": self.rule + " | counted as distinct_nontrivial: solver queries whose verdict is sat/unsat (trivially true checks and "
+                    "all-SAT model counts excluded); queries are distinct by construction (one per work item x path x obligation)",
             "functions_encoded": st.encoded,
             "bounds": self.bounds,
             "paths_explored": st.paths,
